@@ -20,7 +20,7 @@ func init() {
 			"(R05.3) every randOperator draw flows both into an encode (evalOperator) and into the matching emitted decode (operatorToReversedBinaryExpr), and nothing else feeds their operator operand; " +
 			"(R05.4) dataToByteSliceWithExtKeys reverses the emitted statements after the loop and before assembling the function literal; " +
 			"(R05.5) the size window is [8, 2048] and the string path, the composite-literal path and pickObfuscator all use it; " +
-			"(R05.6) the literal obfuscator skips exactly //go:nosplit functions, const declarations and -ldflags=-X variables, and the -X variable set is computed whenever -literals is on. " +
+			"(R05.6) the literal obfuscator skips exactly //go:nosplit functions, const declarations, -ldflags=-X variables and constant expressions of a non-string kind (array lengths and the like must stay constant), and the -X variable set is computed whenever -literals is on. " +
 			"Does not decide decode(encode(x)) = x for any obfuscator: key placement, index arithmetic and chunk order are value-level.",
 		perConfig: checkC05,
 	})
@@ -384,7 +384,7 @@ func checkC05(c *Ctx) {
 // checkLiteralSkips: the pre-callback of literals.Obfuscate returns false in exactly three situations.
 func checkLiteralSkips(c *Ctx, rule string) {
 	w := c.W
-	c.Rule(rule, "literal obfuscation skips exactly: //go:nosplit functions, const declarations, -ldflags=-X variables", 4)
+	c.Rule(rule, "literal obfuscation skips exactly: //go:nosplit functions, const declarations, -ldflags=-X variables, constant expressions of a non-string kind", 5)
 	pre := w.Fn("literals.Obfuscate$1")
 	if pre == nil {
 		c.Undecided(rule, "literals.Obfuscate pre-callback", "", "closure not found")
@@ -401,8 +401,36 @@ func checkLiteralSkips(c *Ctx, rule string) {
 			continue
 		}
 		kind := ""
+		// "the node is an expression whose recorded constant value is non-nil and not a string":
+		// such an expression is folded by the compiler and may have to stay constant
+		// (array lengths, shifts of untyped constants, ...), so nothing below it is rewritten
+		valueNonNil, kindNotString := false, false
 		for _, f := range edgeFacts(r.Block()) {
-			if !f.Outcome {
+			nf := normFact(f)
+			bo, ok := nf.V.(*ssa.BinOp)
+			if !ok {
+				continue
+			}
+			if v, nonNil, isNil := nilTest(bo); isNil && nf.Outcome == nonNil {
+				if fld, ok := v.(*ssa.Field); ok && fieldName(fld.X.Type(), fld.Field) == "Value" && namedOf(fld.X.Type()) == "TypeAndValue" {
+					if lk, ok := fld.X.(*ssa.Lookup); ok && w.BackSlice(lk.X, sliceOpt{}).Fields["Info.Types"] {
+						valueNonNil = true
+					}
+				}
+			}
+			if call, ok := bo.X.(*ssa.Call); ok && call.Call.IsInvoke() && call.Call.Method.Name() == "Kind" {
+				if n, ok := constInt(bo.Y); ok && constant.Kind(n) == constant.String {
+					if (bo.Op == token.NEQ && nf.Outcome) || (bo.Op == token.EQL && !nf.Outcome) {
+						kindNotString = true
+					}
+				}
+			}
+		}
+		if valueNonNil && kindNotString {
+			kind = "constant-expression"
+		}
+		for _, f := range edgeFacts(r.Block()) {
+			if !f.Outcome || kind != "" {
 				continue
 			}
 			switch x := f.V.(type) {
@@ -427,15 +455,16 @@ func checkLiteralSkips(c *Ctx, rule string) {
 			}
 		}
 		if kind == "" {
-			c.Bad(rule, "pre-callback skip", w.Pos(r.Pos()), "the literal obfuscator skips a subtree for a reason other than //go:nosplit, const or -ldflags=-X: literals below it stay in clear")
+			c.Bad(rule, "pre-callback skip", w.Pos(r.Pos()), "the literal obfuscator skips a subtree for a reason other than //go:nosplit, const, -ldflags=-X or a constant expression of a non-string kind: literals below it stay in clear")
 			continue
 		}
 		found[kind] = true
 		c.OK(rule, "skip "+kind, w.Pos(r.Pos()), "documented exception")
 	}
-	for _, k := range []string{"nosplit", "const", "ldflags-X"} {
+	for _, k := range []string{"nosplit", "const", "ldflags-X", "constant-expression"} {
 		if !found[k] {
-			c.Bad(rule, "skip "+k, w.Pos(pre.Pos()), "the "+k+" exception is gone: such code no longer compiles, links or keeps its value once its literals are rewritten")
+			c.Bad(rule, "skip "+k, w.Pos(pre.Pos()), "the "+k+" exception is gone: such code no longer compiles, links or keeps its value once its literals are rewritten"+
+				map[bool]string{true: " (a typed string constant inside an array length such as [len(prefix)]byte is replaced by a call: \"array length ... must be constant\")"}[k == "constant-expression"])
 		}
 	}
 	// the -X set is computed whenever -literals is on, before any file is transformed
